@@ -120,7 +120,8 @@ func c05Rows() []Row {
 		for _, d := range ds {
 			for _, s := range ss {
 				// "__seq__" / "_u": ordinary user columns whose names look like the engine's internal placeholders
-				r := Row{"b": 1 + (i%2)*2, "flag": i%3 == 0, "__seq__": i, "_u": "u", "cpuLoad": i % 4}
+				// "x": a top-level column named like the last segment of the nested item d.x (never a stand-in for it)
+				r := Row{"b": 1 + (i%2)*2, "flag": i%3 == 0, "__seq__": i, "_u": "u", "cpuLoad": i % 4, "x": "top-level"}
 				i++
 				if a != c04Missing {
 					r["a"] = a
